@@ -20,6 +20,16 @@
 #include <unordered_set>
 #include <vector>
 #include <unistd.h>
+#include <fcntl.h>
+#include <sys/mman.h>
+
+#if defined(__SANITIZE_ADDRESS__)
+#define VH_ASAN 1
+#elif defined(__has_feature)
+#if __has_feature(address_sanitizer)
+#define VH_ASAN 1
+#endif
+#endif
 
 namespace vh {
 
@@ -106,6 +116,8 @@ struct State {
     std::string failout;
     bool in_case = false;
     bool verbose = false;
+    char *trace = nullptr;  // shared file mapping "<failout>.cur": the case being executed (survives _exit/abort)
+    size_t trace_sz = 1 << 22;
 };
 inline State &S() {
     static State s;
@@ -225,8 +237,16 @@ bool run_one(const Harness<Case> &h, const Case &c, bool record) {
     s.cur_sig.clear();
     s.cur_ser = [&]() { return h.ser(c); };
     s.in_case = true;
+    if (s.trace) {
+        std::string t = h.ser(c);
+        size_t n = std::min(t.size(), s.trace_sz - 2);
+        memcpy(s.trace, t.data(), n);
+        s.trace[n] = '\n';
+        s.trace[n + 1] = 0;
+    }
     h.check(c);
     s.in_case = false;
+    if (s.trace) s.trace[0] = 0;
     bool ok = !s.cur_fail;
     if (!ok) {
         for (auto &k : s.known)
@@ -362,6 +382,18 @@ int harness_main(int argc, char **argv, const Harness<Case> &h) {
         return 0;
     }
     install_death_hooks();
+#ifdef VH_ASAN
+    if (!s.failout.empty() && mode != "replay") {
+        // sanitizer aborts do not reliably run callbacks: keep the current case in a shared file mapping
+        std::string tp = s.failout + ".cur";
+        int fd = open(tp.c_str(), O_RDWR | O_CREAT | O_TRUNC, 0644);
+        if (fd >= 0 && ftruncate(fd, (off_t)s.trace_sz) == 0) {
+            void *m = mmap(nullptr, s.trace_sz, PROT_READ | PROT_WRITE, MAP_SHARED, fd, 0);
+            if (m != MAP_FAILED) s.trace = (char *)m;
+        }
+        if (fd >= 0) close(fd);
+    }
+#endif
     if (h.selftest) h.selftest();
     if (mode == "replay") {
         std::string txt = read_case_file(replay);
